@@ -5,6 +5,7 @@ import CM.Ops.Walk
 import CM.Ops.Render
 import CM.Ops.Emph
 import CM.Ops.Refs
+import CM.Ops.Doc
 namespace CM.Ops
 
 def echoOp : Op
@@ -17,6 +18,6 @@ def treeOp : Op
     | none => bad
   | _ => bad
 
-def allOps : List (String × Op) := [("echo", echoOp), ("tree", treeOp)] ++ recognizeOps ++ checkOps ++ walkOps ++ renderOps ++ emphOps ++ refsOps
+def allOps : List (String × Op) := [("echo", echoOp), ("tree", treeOp)] ++ recognizeOps ++ checkOps ++ walkOps ++ renderOps ++ emphOps ++ refsOps ++ docOps
 
 end CM.Ops
